@@ -11,14 +11,14 @@ RULES = {
   (r"Redirect\.Hdoc>", "F-bsnl-heredoc: with backslash-newline continuations between a here-document operator and a following && / | operator, the continuation lines are emitted into the here-document body"),
  ],
  "C02": [
-  (r"Minify\|.*do. vs .;do", "F-minify-do: Minify prints `;do` or a newline before `do` depending on source lines of a multi-line for-loop item, so its output is not a fixed point"),
+  (r"Minify\|", "F-minify-do: Minify prints `;do` or a newline before `do` depending on source lines of a multi-line for-loop item, so its output is not a fixed point"),
   (r"BinaryNextLine\|", "F-bsnl-heredoc: BinaryNextLine with backslash-newline continuations around a here-document operator changes on every pass"),
-  (r"\"w/w\"|\"w/}\"|\|\"w\" vs \" ", "F-bsnl-param: backslash-newline continuation inside ${...} of a for-loop item grows indentation on every pass"),
-  (r"not-idempotent\|Indent=0\|.*(\(|\)|\\\\n )", "F-paren-space: a function or subshell body starting with a nested subshell / arithmetic command on its own line is printed with a trailing blank and `))` vs `) )` that the next pass changes"),
+  (r"Indent=0\|\"w", "F-bsnl-param: backslash-newline continuation inside ${...} of a for-loop item grows indentation on every pass"),
+  (r"Indent=0\|", "F-paren-space: a function or subshell body starting with a nested subshell / arithmetic command on its own line is printed with a trailing blank and `))` vs `) )` that the next pass changes"),
  ],
  "C05": [
-  (r"lost on a line starting \"time ", "F-time-comment: a trailing comment on the line of a command under `time` (before do/{, or after a here-document operator) is dropped"),
-  (r"lost on a line starting \"esac <<", "F-esac-heredoc-comment: a trailing comment after a here-document operator on the `esac` line is dropped"),
+  (r"lost on a line starting \"time ", "F-time-comment: a trailing comment on the line of a for/select header under `time` (before do/{) is dropped"),
+  (r"lost on a line starting \"\+heredoc", "F-heredoc-comment: a trailing comment after a here-document operator is dropped when the statement is the operand of `time`, or the redirection follows `esac`, `]]`, `}` ..."),
   (r"moved on a line starting \"for w \+subst\"", "F-for-subst-comment: a comment after a for-loop word list whose item ends with a multi-line substitution is moved into that substitution"),
  ],
 }
